@@ -320,7 +320,9 @@ def run_family(prop, tier, replay=None):
         if prop == "C03":
             import checks_algo
             info = checks_algo.run_cases(prop, gv, work, verdict, suite="weighted", grid=0, groups=GROUPS[prop],
-                                         gen=[("dups", plan["dups"], 2, 5, 0), ("halves", plan["dups"] // 5, 2, 5, 0)], families=[], nshards=NCPU)
+                                         gen=[("dups", plan["dups"], 2, 5, 0), ("halves", plan["dups"] // 5, 2, 5, 0),
+                                              # a hub of 9-11 neighbours whose edges are re-added: lists beyond any small-list threshold
+                                              ("hubdups", max(32, plan["dups"] // 25), 10, 12, 0)], families=[], nshards=NCPU)
             distinct += info["states"]
             generated += info["transitions"]
             extra["algorithm_level"] = info
